@@ -44,7 +44,7 @@ fn int(x: i64) -> Value {
 
 fn empty_record() -> Value {
     let z = json!({"k": "num", "v": 0});
-    json!({"icao24": [], "is_icao24": false, "actype": -1, "actype_name": "", "lat": z, "lon": z,
+    json!({"icao24": [], "icao24_json": [], "is_icao24": false, "actype": -1, "actype_name": "", "lat": z, "lon": z,
            "alt": z, "vs": z, "gs": z, "track": z, "no_track": false, "stealth": false,
            "gps": z, "mult": z, "ns": [], "ew": [], "reflat": z, "reflon": z, "ts": [0, 0]})
 }
@@ -56,6 +56,9 @@ fn record(f: &Flarm) -> Value {
         .unwrap_or_default();
     json!({
         "icao24": chars_json(&f.icao24.to_string()),
+        // the address as the serialised record shows it (what JSON / Python consumers read)
+        "icao24_json": chars_json(serde_json::to_value(f).ok().as_ref()
+            .and_then(|v| v.get("icao24")).and_then(|v| v.as_str()).unwrap_or("<not a string>")),
         "is_icao24": f.is_icao24,
         "actype": f.actype.clone() as u8,
         "actype_name": name,
